@@ -180,9 +180,9 @@ Record J (n : nat) (L0 : list pair) (dst : nat) (st : dstate) : Prop := mkJ {
   j_lp : length (d_phys st) = n;
   j_src : (d_src st < n \/ (n = 0 /\ d_src st = 0))%nat;
   j_dst : (dst <= S (d_src st))%nat;
-  j_live : forall i, (i < dst)%nat -> (i < n)%nat -> live (cell_at (d_cells st) i) = true;
+  j_live : forall i, (i < dst)%nat -> (i < d_src st)%nat -> live (cell_at (d_cells st) i) = true;
   j_dead : forall i, (d_src st < i)%nat -> live (cell_at (d_cells st) i) = false;
-  j_pend : (d_pl st = 0 \/ (d_pd st + d_pl st <= dst /\ d_src st <= d_ps st /\ d_ps st + d_pl st <= n))%nat;
+  j_pend : (d_pl st = 0 \/ (d_pd st + d_pl st <= dst /\ d_pd st + d_pl st <= d_src st /\ d_src st <= d_ps st /\ d_ps st + d_pl st <= n))%nat;
   j_perm : Permutation (filter livep (lview st)) (filter livep L0)
 }.
 
@@ -204,7 +204,7 @@ Proof.
   - (* merged into the pending move *)
     apply andb_true_iff in Em. destruct Em as [E0 Em]. apply Nat.ltb_lt in E0.
     unfold merge_test in Em. apply andb_true_iff in Em. destruct Em as [E1 E2].
-    apply Nat.eqb_eq in E1, E2. destruct Hpend as [Hp|[Hp1 [Hp2 Hp3]]]; [lia|].
+    apply Nat.eqb_eq in E1, E2. destruct Hpend as [Hp|[Hp1 [Hp1' [Hp2 Hp3]]]]; [lia|].
     simpl. split; [|split; assumption].
     apply (nth_ext _ _ dflt dflt).
     + rewrite lview_length, ins_length; rewrite ?lview_length; simpl; lia.
@@ -238,14 +238,153 @@ Proof.
       assert (Ds : nth s (d_phys (flush true st0)) None = snd (lp st0 s)) by (rewrite <- Ps; reflexivity).
       assert (Cd : cell_at (d_cells (flush true st0)) dst = fst (lp st0 dst)) by (rewrite <- Pd; reflexivity).
       replace (dst + 1 - 1 - (i - dst))%nat with (dst - (i - dst))%nat by lia.
-      destruct Hpend as [Hp|[Hp1 [Hp2 Hp3]]].
+      destruct Hpend as [Hp|[Hp1 [Hp1' [Hp2 Hp3]]]].
       * (* nothing was pending *)
         unfold lp in *. simpl in *. rewrite Hp in *. rewrite !Hcs in *.
         nat_cases; try (replace (dst - (i - dst))%nat with dst in * by lia);
           rewrite ?Ci, ?Di, ?Ds, ?Cd; nat_cases; try reflexivity; f_equal; try lia; try reflexivity.
         all: try (replace (s + (i - dst))%nat with s by lia; rewrite Ds; nat_cases; reflexivity).
+        all: try (subst; reflexivity).
+        all: try (f_equal; lia).
       * unfold lp in *. simpl in *. rewrite !Hcs in *.
         nat_cases; try (replace (dst - (i - dst))%nat with dst in * by lia);
           rewrite ?Ci, ?Di, ?Ds, ?Cd; nat_cases; try reflexivity; f_equal; try lia; try reflexivity.
         all: try (replace (s + (i - dst))%nat with s by lia; rewrite Ds; nat_cases; reflexivity).
+        all: try (subst; reflexivity).
+        all: try (f_equal; lia).
+Qed.
+
+(** liveness of the metadata after a move *)
+Lemma do_move_live : forall n L0 dst st s,
+  J n L0 dst st -> (dst < s)%nat -> (s <= d_src st)%nat ->
+  live (cell_at (d_cells st) dst) = false -> live (cell_at (d_cells st) s) = true ->
+  (forall i, (s < i <= d_src st)%nat -> live (cell_at (d_cells st) i) = false) ->
+  (forall i, (i <= dst)%nat -> live (cell_at (d_cells (do_move true st dst s)) i) = true) /\
+  (forall i, (s < i)%nat -> live (cell_at (d_cells (do_move true st dst s)) i) = false).
+Proof.
+  intros n L0 dst st s HJ Hds Hss Hdd Hsl Hscan. destruct HJ as [Hlc Hlp Hsrc Hdst Hlive Hdead Hpend _].
+  assert (Hsn : (s < n)%nat) by lia.
+  set (cs := set_nth s empty_cell (set_nth dst (cell_at (d_cells st) s) (d_cells st))).
+  assert (Lcs : length cs = n) by (unfold cs; rewrite !set_nth_length; exact Hlc).
+  assert (Hcs : forall i, cell_at cs i = if (i =? s)%nat then empty_cell else if (i =? dst)%nat then cell_at (d_cells st) s else cell_at (d_cells st) i).
+  { intros i. unfold cs, cell_at. rewrite !nth_set_nth, !set_nth_length. rewrite Hlc. nat_cases. }
+  assert (A1 : forall i, (i <= dst)%nat -> live (cell_at cs i) = true).
+  { intros i Hi. rewrite Hcs. nat_cases; try exact Hsl; apply Hlive; lia. }
+  assert (A2 : forall i, (s < i)%nat -> live (cell_at cs i) = false).
+  { intros i Hi. rewrite Hcs. nat_cases. destruct (Nat.le_gt_cases i (d_src st)); [apply Hscan|apply Hdead]; lia. }
+  unfold do_move. fold cs.
+  destruct ((0 <? d_pl st)%nat && merge_test true st dst s) eqn:Em; simpl; [split; assumption|].
+  unfold flush. simpl. destruct (Nat.eqb_spec (d_pl st) 0) as [E|E]; simpl; [split; assumption|].
+  destruct Hpend as [Hp|[Hp1 [Hp1' [Hp2 Hp3]]]]; [lia|].
+  split; intros i Hi; unfold cell_at; rewrite nth_reverse_block by lia; nat_cases.
+  - apply A1. lia.
+  - apply A1. lia.
+  - apply A1. lia.
+  - apply A2. lia.
+Qed.
+
+Lemma lview_nopending : forall st, length (d_phys st) = length (d_cells st) -> d_pl st = 0%nat ->
+  lview st = combine (d_cells st) (d_phys st).
+Proof.
+  intros st Hl Hp. destruct (flush_view st Hl (or_introl Hp)) as [H _].
+  unfold flush in H. rewrite Hp in H. simpl in H. symmetry. exact H.
+Qed.
+
+(** one iteration of the outer loop keeps the invariant *)
+Lemma J_step : forall n L0 dst st, J n L0 dst st -> (dst < d_src st)%nat ->
+  J n L0 (S dst)
+    (if live (cell_at (d_cells st) dst) then st
+     else let s := scan_src (d_cells st) dst (d_src st) in
+          if (s <=? dst)%nat then mkD (d_cells st) (d_phys st) s (d_ps st) (d_pd st) (d_pl st)
+          else do_move true st dst s).
+Proof.
+  intros n L0 dst st HJ Hlt. pose proof HJ as HJ0.
+  destruct HJ as [Hlc Hlp Hsrc Hdst Hlive Hdead Hpend Hperm].
+  destruct (live (cell_at (d_cells st) dst)) eqn:El.
+  - constructor; auto; try lia.
+    + intros i Hi Hi2. destruct (Nat.eq_dec i dst); [subst; exact El|]. apply Hlive; lia.
+  - cbv zeta. destruct (scan_src_spec (d_cells st) dst (d_src st) ltac:(lia)) as [S1 [S2 S3]].
+    set (s := scan_src (d_cells st) dst (d_src st)) in *.
+    destruct (Nat.leb_spec s dst).
+    + (* nothing left above dst *)
+      constructor; simpl; auto; try lia.
+      * intros i Hi Hi2. apply Hlive; lia.
+      * intros i Hi. destruct (Nat.le_gt_cases i (d_src st)); [apply S2|apply Hdead]; lia.
+      * destruct Hpend as [Hp|Hp]; [left; exact Hp|right; lia].
+      * unfold lview in *. simpl. exact Hperm.
+    + specialize (S3 ltac:(lia)).
+      destruct (do_move_view n L0 dst st s HJ0 ltac:(lia) ltac:(lia)) as [Hv [Hc Hp]].
+      destruct (do_move_live n L0 dst st s HJ0 ltac:(lia) ltac:(lia) El S3 S2) as [Hl1 Hl2].
+      assert (Hsrc' : d_src (do_move true st dst s) = s).
+      { unfold do_move. destruct ((0 <? d_pl st)%nat && merge_test true st dst s); reflexivity. }
+      assert (Hdd : livep (nth dst (lview st) dflt) = false).
+      { rewrite nth_lview by lia. unfold lp.
+        destruct Hpend as [Hp0|Hp0]; [rewrite Hp0|]; nat_cases; unfold livep; simpl; exact El. }
+      constructor; auto; try lia.
+      * rewrite Hsrc'. lia.
+      * rewrite Hsrc'. lia.
+      * intros i Hi _. apply Hl1. lia.
+      * rewrite Hsrc'. exact Hl2.
+      * rewrite Hsrc'. unfold do_move.
+        destruct ((0 <? d_pl st)%nat && merge_test true st dst s) eqn:Em; simpl.
+        -- apply andb_true_iff in Em. destruct Em as [E0 Em]. apply Nat.ltb_lt in E0.
+           unfold merge_test in Em. apply andb_true_iff in Em. destruct Em as [E1 E2].
+           apply Nat.eqb_eq in E1, E2. destruct Hpend as [Hp0|Hp0]; [lia|]. right. lia.
+        -- right. lia.
+      * rewrite Hv. eapply Permutation_trans; [|exact Hperm].
+        destruct ((0 <? d_pl st)%nat && merge_test true st dst s) eqn:Em.
+        -- apply andb_true_iff in Em. destruct Em as [E0 Em]. apply Nat.ltb_lt in E0.
+           unfold merge_test in Em. apply andb_true_iff in Em. destruct Em as [E1 E2].
+           apply Nat.eqb_eq in E1, E2. apply ins_perm; rewrite ?lview_length; try lia.
+           rewrite <- E2. exact Hdd.
+        -- apply ins_perm; rewrite ?lview_length; try lia. rewrite Nat.add_0_r. exact Hdd.
+Qed.
+
+Lemma J_loop : forall fuel n L0 dst st, J n L0 dst st -> (n <= dst + fuel)%nat ->
+  exists dst', J n L0 dst' (defrag_loop true fuel dst st) /\ (d_src (defrag_loop true fuel dst st) <= dst')%nat.
+Proof.
+  induction fuel as [|f IH]; intros n L0 dst st HJ Hf; simpl.
+  - exists dst. split; [exact HJ|]. destruct (j_src _ _ _ _ HJ); lia.
+  - destruct (Nat.ltb_spec dst (d_src st)).
+    + apply IH; [|lia]. apply (J_step n L0 dst st HJ H).
+    + exists dst. split; [exact HJ|lia].
+Qed.
+
+Definition compact (l : list cell) : Prop :=
+  forall i j, (i < j)%nat -> live (cell_at l j) = true -> live (cell_at l i) = true.
+
+(** the whole loop, followed by the final flush *)
+Theorem defrag_loop_correct : forall cs ps,
+  length ps = length cs ->
+  let n := length cs in
+  let st := flush true (defrag_loop true n 0 (mkD cs ps (n - 1) 0 0 0)) in
+  length (d_cells st) = n /\ length (d_phys st) = n /\
+  Permutation (live_pairs (d_cells st) (d_phys st)) (live_pairs cs ps) /\
+  compact (d_cells st).
+Proof.
+  intros cs ps Hl n st.
+  set (st0 := mkD cs ps (n - 1) 0 0 0).
+  assert (J0 : J n (combine cs ps) 0 st0).
+  { constructor; simpl; auto; try lia.
+    - intros i Hi. unfold cell_at. rewrite nth_overflow; [reflexivity|]. fold n. lia.
+    - rewrite lview_nopending by (simpl; auto). simpl. reflexivity. }
+  destruct (J_loop n n (combine cs ps) 0 st0 J0 ltac:(lia)) as [dst' [HJ Hsd]].
+  set (st1 := defrag_loop true n 0 st0) in *.
+  destruct HJ as [Hlc Hlp Hsrc Hdst Hlive Hdead Hpend Hperm].
+  destruct (flush_view st1 ltac:(lia)) as [Hv [Hfc [Hfp _]]].
+  { destruct Hpend as [Hp|Hp]; [left; exact Hp|right; lia]. }
+  fold st in Hv, Hfc, Hfp.
+  repeat split; try lia.
+  - unfold live_pairs. rewrite Hv. exact Hperm.
+  - (* compactness: liveness is unchanged by the flush, which permutes a block of live cells *)
+    assert (Hst : forall i, live (cell_at (d_cells st) i) = live (cell_at (d_cells st1) i)).
+    { intros i. unfold st, flush. destruct (Nat.eqb_spec (d_pl st1) 0); [reflexivity|]. simpl.
+      destruct Hpend as [Hp|[Hp1 [Hp1' [Hp2 Hp3]]]]; [lia|].
+      unfold cell_at. rewrite nth_reverse_block by lia. nat_cases.
+      change (live (cell_at (d_cells st1) (d_pd st1 + d_pl st1 - 1 - (i - d_pd st1))) = live (cell_at (d_cells st1) i)).
+      rewrite !Hlive by lia. reflexivity. }
+    intros i j Hij Hj. rewrite Hst in *.
+    assert (j <= d_src st1)%nat.
+    { destruct (Nat.le_gt_cases j (d_src st1)); auto. rewrite Hdead in Hj by lia. discriminate. }
+    apply Hlive; lia.
 Qed.
